@@ -53,6 +53,11 @@ def render_plan(calls, t):
             lines.append(f"{i:03d} : {body}")
         else:
             lines.append(f"{i * 100} : {body}")
+    if t.chance(1, 4):
+        # planner chatter: paren-free ';' comment lines before, between and after the steps (LPG / VAL style headers)
+        for _ in range(1 + t.draw(3)):
+            lines.insert(t.draw(len(lines) + 1), ["; Version LPG-td-1.0", "; Seed 12345", "; Time 0.02", "; NrActions 7",
+                                                  "; cost = 12 unit cost"][t.draw(5)])
     return "\n".join(lines) + ("\n" if t.chance(1, 2) else "")
 
 
